@@ -604,3 +604,14 @@ def retry_outside_reader() -> Spec:
         Node("R", (("s", In("S")),), kinds=(OK, E1), kind_slots=2, attempts=2, delay=2, exceptions=("E1",), use_default=True),
         Node("O", (("d", Rec("S", "D", 1)), ("r", In("R")))),
     ], "S", "O", dur_nodes=("S", "D"))
+
+
+def rec_generic_start(max_iter: int = 1) -> Spec:
+    """rec_simple whose start node is declared through build_node with dependencies_default: additional_data is a keyword the
+    engine passes in some executions only, the defaults in all of them."""
+    return Spec("rec_generic_start", [
+        Node("S", takes_ad=True, generic=True),
+        Node("M", (("s", In("S")),), generic=True),
+        Node("D", (("m", In("M")),), recurrent=True, want_max=max_iter + 1, use_default=True),
+        Node("O", (("d", Rec("S", "D", max_iter)),)),
+    ], "S", "O")
